@@ -7,47 +7,77 @@
    interleavings of the atomic steps of CachedPageAllocator::allocate/deallocate (OAlloc/OFree, incl. the
    compensating reverse callbacks and the beyond-capacity part) and of ObjectPool pop/push/try_pop in auto-create
    mode (OPoolPop/OPoolPush) and strict mode (ONew/OSPop/OSPush/OTryPop).
-     pages_of s = cache content ++ pages held by callers ++ pages inside running calls ++ pages returned upstream;
+     pages_of s = cache content ++ pages held by callers ++ pages inside running calls (for a deallocate: the part
+                  of its array beyond the cursor progress) ++ pages returned upstream;
+     pow2 qc    = the queue capacity is 2^k, k < 64 (what reserve_and_clear's bit_ceil produces);
      err s      = some callback touched a queue cell it does not own / in the wrong state.
    PART B (sequential, calls of different threads in any order): Counting(Batch(upstream)).
 
    Not mechanised (stated in META["note"]): the ring-slot/version/futex protocol of ConcurrentBoundedQueue below the
    ticket contract (C01), termination under fairness (liveness appears as enabledness theorems:
-   c17_blocked_pop_resumes, c17_compensates_when_starved), and the bound "cached <= capacity" outside quiescent
-   states (c17_cache_bounded_at_quiescence). *)
+   c17_blocked_pop_resumes, c17_blocked_pop_means_empty, c17_strict_no_deadlock, c17_compensates_when_starved). *)
 From Coq Require Import ZArith List Bool Arith Permutation.
 Require Import Verif.Gen.Gen_page_allocator Verif.Conc.Machine Verif.PA.PAModel Verif.PA.PAProofs.
 Import ListNotations.
 
 (* a page (object) is in exactly one place at any time: never cached twice, never held by two callers, never held or
    cached after it went back upstream; and no callback ever reads or overwrites a cell that is not its own *)
-Theorem c17_single_owner : forall qc pc progs s, 1 <= qc -> Reach qc pc progs s -> NoDup (pages_of s) /\ err s = false.
+Theorem c17_single_owner : forall qc pc progs s, pow2 qc -> Reach qc pc progs s -> NoDup (pages_of s) /\ err s = false.
 Proof. exact (fun qc pc progs s H R => pa_single_owner s (pa_inv qc pc progs s H R)). Qed.
 Print Assumptions c17_single_owner.
 
 (* nothing is lost and nothing is invented: the pages in the four places are exactly the pages obtained from upstream *)
-Theorem c17_conservation : forall qc pc progs s, 1 <= qc -> Reach qc pc progs s ->
+Theorem c17_conservation : forall qc pc progs s, pow2 qc -> Reach qc pc progs s ->
   Permutation (pages_of s) (seq 0 (fresh s)).
 Proof. exact (fun qc pc progs s H R => pa_conservation s (pa_inv qc pc progs s H R)). Qed.
 Print Assumptions c17_conservation.
 
 (* at any quiescent point: obtained - returned = held by callers + cached *)
-Theorem c17_conservation_at_quiescence : forall qc pc progs s, 1 <= qc -> Reach qc pc progs s -> quiescent s = true ->
+Theorem c17_conservation_at_quiescence : forall qc pc progs s, pow2 qc -> Reach qc pc progs s -> quiescent s = true ->
   fresh s - length (returned s) = length (all_held s) + length (tape_pages (tape s)) /\ length (returned s) <= fresh s.
 Proof. exact (fun qc pc progs s H R => pa_conservation_quiescent s (pa_inv qc pc progs s H R)). Qed.
 Print Assumptions c17_conservation_at_quiescence.
 
 (* destroying the allocator returns exactly its cache upstream (and touches nothing else) *)
-Theorem c17_dtor_returns_cache : forall qc pc progs s, 1 <= qc -> Reach qc pc progs s -> quiescent s = true ->
+Theorem c17_dtor_returns_cache : forall qc pc progs s, pow2 qc -> Reach qc pc progs s -> quiescent s = true ->
   tape_pages (tape (dtor s)) = [] /\ Permutation (returned (dtor s)) (returned s ++ tape_pages (tape s)) /\
   threads (dtor s) = threads s /\ fresh (dtor s) = fresh s.
 Proof. exact (fun qc pc progs s H R => pa_dtor_returns_cache s (pa_inv qc pc progs s H R)). Qed.
 Print Assumptions c17_dtor_returns_cache.
 
-Theorem c17_cache_bounded_at_quiescence : forall qc pc progs s, 1 <= qc -> Reach qc pc progs s -> quiescent s = true ->
+Theorem c17_cache_bounded_at_quiescence : forall qc pc progs s, pow2 qc -> Reach qc pc progs s -> quiescent s = true ->
   length (tape_pages (tape s)) <= qcap s.
 Proof. exact (fun qc pc progs s H R => pa_cache_bounded_quiescent s (pa_inv qc pc progs s H R)). Qed.
 Print Assumptions c17_cache_bounded_at_quiescence.
+
+(* the allocator callbacks, invoked once per contiguous segment [ss, se) of the ring, read / write the caller's page
+   array at the cursor and leave the cursor advanced by the segment length - so the two invocations of a claim that
+   wraps the ring handle consecutive parts of the array; the tail loops run from the cursor to the end of the array *)
+Theorem c17_callbacks_advance_cursor : forall r th j, ss th <= se th -> (Z.of_nat (se th - ss th) < 2 ^ 64)%Z ->
+  src_index th j = cur th + j /\ dst_index th j = cur th + j /\ cursor_after r th = cur th + (se th - ss th) /\
+  extra_alloc_num th = ex th - cur th /\
+  (forall p e, (alloc_extra_more p e = true <-> (p < e)%Z) /\ (free_extra_more p e = true <-> (p < e)%Z)).
+Proof.
+  exact (fun r th j L W => conj (src_index_spec th j) (conj (dst_index_spec th j) (conj (cursor_after_spec r th L W)
+           (conj (extra_alloc_num_spec th) extra_loops_spec)))).
+Qed.
+Print Assumptions c17_callbacks_advance_cursor.
+
+(* the split of a claim at the end of the ring round (regenerated from pop_n / push_n): a first segment and, when the
+   claim wraps, a second one covering exactly the rest *)
+Theorem c17_segments_partition_the_claim : forall r q idx need, pow2 q -> 1 <= need ->
+  idx < fst (seg_plan r q idx need) <= idx + need /\
+  ((snd (seg_plan r q idx need) = None /\ fst (seg_plan r q idx need) = idx + need) \/
+   (snd (seg_plan r q idx need) = Some (fst (seg_plan r q idx need), idx + need - fst (seg_plan r q idx need)) /\
+    fst (seg_plan r q idx need) < idx + need)).
+Proof. exact seg_plan_spec. Qed.
+Print Assumptions c17_segments_partition_the_claim.
+
+(* the cache never holds more pages than its capacity - in EVERY reachable state, also in the middle of concurrent
+   allocate/deallocate calls and compensations *)
+Theorem c17_cache_bounded : forall qc pc progs s, pow2 qc -> Reach qc pc progs s -> length (tape_pages (tape s)) <= qcap s.
+Proof. exact (fun qc pc progs s H R => pa_cache_bounded s (pa_inv qc pc progs s H R)). Qed.
+Print Assumptions c17_cache_bounded.
 
 (* the claim on the queue never exceeds its capacity (so a batch larger than the cache takes the direct path) *)
 Theorem c17_claims_fit_the_cache : forall n c, alloc_need_n n c = Nat.min n c /\ free_need_n n c = Nat.min n c.
@@ -65,7 +95,7 @@ Print Assumptions c17_compensates_when_starved.
 Theorem c17_strict_never_creates : forall qc pc progs s, strict_progs progs = true -> Reach qc pc progs s -> fresh s = news s.
 Proof. exact pa_strict_never_creates. Qed.
 Print Assumptions c17_strict_never_creates.
-Theorem c17_strict_bound : forall qc pc progs s, 1 <= qc -> strict_progs progs = true -> Reach qc pc progs s ->
+Theorem c17_strict_bound : forall qc pc progs s, pow2 qc -> strict_progs progs = true -> Reach qc pc progs s ->
   length (all_held s) + length (tape_pages (tape s)) <= news s.
 Proof. exact pa_strict_bound. Qed.
 Print Assumptions c17_strict_bound.
@@ -75,13 +105,24 @@ Theorem c17_blocked_pop_resumes : forall s t th i, nth_error (threads s) t = Som
   pop_ready (tape s) i = true -> step s t <> None.
 Proof. exact pa_blocked_pop_enabled. Qed.
 Print Assumptions c17_blocked_pop_resumes.
-Theorem c17_blocked_pop_means_empty : forall qc pc progs s, 1 <= qc -> Reach qc pc progs s ->
+Theorem c17_blocked_pop_means_empty : forall qc pc progs s, pow2 qc -> Reach qc pc progs s ->
   (forall t th, nth_error (threads s) t = Some th ->
      tpc th = Idle \/ exists i, tpc th = SWait false i /\ pop_ready (tape s) i = false) ->
   (exists t th i, nth_error (threads s) t = Some th /\ tpc th = SWait false i) ->
   tape_pages (tape s) = [].
 Proof. exact (fun qc pc progs s H R => pa_blocked_pop_means_empty s (pa_inv qc pc progs s H R)). Qed.
 Print Assumptions c17_blocked_pop_means_empty.
+
+(* no deadlock while an object is available: a reachable state of a strict pool in which nobody can move although
+   some thread is unfinished (no push being stuck on a full ring, which capacity >= injected objects excludes) has
+   ALL injected objects held by callers and an empty pool; so whenever outstanding < injected somebody can move *)
+Theorem c17_strict_no_deadlock : forall qc pc progs s, pow2 qc -> strict_progs progs = true -> Reach qc pc progs s ->
+  (forall t, step s t = None) ->
+  (forall t th i, nth_error (threads s) t = Some th -> tpc th = SWait true i -> push_ready (qcap s) (tape s) i = true) ->
+  (exists t th, nth_error (threads s) t = Some th /\ thread_done th = false) ->
+  length (all_held s) = news s /\ tape_pages (tape s) = [].
+Proof. exact pa_strict_no_deadlock. Qed.
+Print Assumptions c17_strict_no_deadlock.
 
 (* the recycler runs exactly once, in order, for every object handed to push *)
 Theorem c17_recycle_once : forall qc pc progs s, Reach qc pc progs s -> recycled s = pushes s.
@@ -125,6 +166,9 @@ Example c17_blocked_example : exists s, Reach 2 1 [[OSPop]; [ONew; OSPush]] s /\
      tpc th = Idle \/ exists i, tpc th = SWait false i /\ pop_ready (tape s) i = false) /\
   (exists t th i, nth_error (threads s) t = Some th /\ tpc th = SWait false i).
 Proof. exact ex_blocked. Qed.
+Example c17_stuck_example : exists s, Reach 2 1 [[OSPop]; [ONew; OSPush; OSPop; OSPop]] s /\ (forall t, step s t = None) /\
+  (exists t th, nth_error (threads s) t = Some th /\ thread_done th = false) /\ all_held s <> [].
+Proof. exact ex_stuck. Qed.
 Example c17_batch_example : BInv (brun (binit 2 2) [BAlloc 0; BAllocN 1 3; BFree 0; BAlloc 0]) /\
   boutcome (brun (binit 2 2) [BAlloc 0; BAllocN 1 3; BFree 0; BAlloc 0]) = ([[1]; [2; 3; 4]], [[]; [5]], ([0], 6, 4%Z)).
 Proof. exact ex_batch. Qed.
